@@ -300,12 +300,14 @@ def decimal_bond_case(rng):
     rand_string = lambda: tuple(rng.choice(alpha) for _ in range(n))
     terms = []
     survivors = set()
+    signs = {}
     for i in range(rng.randint(1, 8)):
         t = rand_string()
         survivors.add(t)
         c = rng.choice(DEC_LARGE) if i == 0 else rng.choice(DEC_LARGE + DEC_SMALL)
-        sign = -1 if (i > 0 and rng.random() < 0.3) else 1
-        terms.append([list(t), [sign * c[0], c[1]]])
+        if t not in signs:                               # repeated surviving strings keep one sign: they never cancel
+            signs[t] = -1 if (i > 0 and rng.random() < 0.3) else 1
+        terms.append([list(t), [signs[t] * c[0], c[1]]])
     n_groups = rng.randint(1, 4)
     for _ in range(n_groups):
         t = rand_string()
@@ -325,8 +327,6 @@ def decimal_bond_case(rng):
             terms.append([list(t), [sgn * a, b]])
         terms.append([list(t), [-sgn * tot.numerator, tot.denominator]])
     rng.shuffle(terms)
-    if all(float(abs(c[0])) / c[1] < 1 for _, c in terms):
-        terms.append([list(rand_string()), [1, 1]])
     inexact = 0
     acc = {}
     for t, c in terms:
@@ -336,6 +336,7 @@ def decimal_bond_case(rng):
     for t, c in terms:
         ex[tuple(t)] = ex.get(tuple(t), F(0)) + F(c[0], c[1])
     inexact = sum(1 for t in ex if ex[t] == 0 and acc[t] != 0.0)
+    assert max(abs(v) for v in ex.values()) >= 1, "generator invariant: a surviving merged coefficient >= 1"
     return {"n": n, "terms": terms, "kind": "decimal", "float_inexact_cancellations": inexact,
             "exact_cancellations": sum(1 for t in ex if ex[t] == 0)}
 
